@@ -173,9 +173,20 @@ def _addr_hazard():
     return out
 
 
+def _disp_hazard():
+    """Cell offsets whose BYTE displacement sits on the disp8 / disp32 boundary (+127 / +128 /
+    -128 / -129) at the narrower widths (the sampled offsets put 8-byte cells there)."""
+    out = []
+    for w, per in (("u8", 1), ("u16", 2), ("u32", 4)):
+        for off in (127 // per, 128 // per, -128 // per, -128 // per - 1):
+            out.append((w, ("Copy", ("M", off), ("T", 4), None), 0x10))
+            out.append((w, ("Add", ("T", 6), ("M", off), ("I", 1)), 0x0))
+    return out
+
+
 def _instances(tier, seed):
     rnd = random.Random(seed)
-    inst = list(MUST) + _byte_hazard() + _addr_hazard()
+    inst = list(MUST) + _byte_hazard() + _addr_hazard() + _disp_hazard()
     if tier == "quick":
         inst += _candidates("u64", rnd, 1)
         inst += _candidates("u8", rnd, 1)
